@@ -38,6 +38,8 @@ pub fn complete(
     let mut current_cmd = &*cmd;
     let mut pos_index = 1;
     let mut is_escaped = false;
+    // Like the real parser: has an argument of `current_cmd` been seen already?
+    let mut valid_arg_found = false;
     let mut next_state = ParseState::ValueDone;
     while let Some(arg) = raw_args.next(&mut cursor) {
         let current_state = next_state;
@@ -47,22 +49,33 @@ pub fn complete(
             arg.to_value_os(),
         );
         if cursor == target_cursor {
-            return complete_arg(&arg, current_cmd, current_dir, pos_index, current_state);
+            return complete_arg(
+                &arg,
+                current_cmd,
+                current_dir,
+                pos_index,
+                current_state,
+                valid_arg_found,
+            );
         }
 
         // Like the real parser, a value of a pending option or of a positional that is still
-        // being filled is not a subcommand
-        let maybe_subcommand = current_cmd.is_subcommand_precedence_over_arg_set()
-            || !matches!(current_state, ParseState::Opt(_) | ParseState::Pos(_));
+        // being filled is not a subcommand, and neither is a word that follows an argument of a
+        // command whose arguments conflict with subcommands
+        let maybe_subcommand = (current_cmd.is_subcommand_precedence_over_arg_set()
+            || !matches!(current_state, ParseState::Opt(_) | ParseState::Pos(_)))
+            && !(current_cmd.is_args_conflicts_with_subcommands_set() && valid_arg_found);
         if let Some(value) = arg.to_value().ok().filter(|_| maybe_subcommand) {
             if let Some(next_cmd) = current_cmd.find_subcommand(value) {
                 current_cmd = next_cmd;
                 pos_index = 1;
+                valid_arg_found = false;
                 continue;
             }
         }
 
         if is_escaped {
+            valid_arg_found = true;
             (next_state, pos_index) =
                 parse_positional(current_cmd, pos_index, is_escaped, current_state);
         } else if arg.is_escape() {
@@ -86,10 +99,12 @@ pub fn complete(
                 });
 
                 if let Some(opt) = opt {
+                    valid_arg_found = true;
                     if opt.get_num_args().expect("built").takes_values() && value.is_none() {
                         next_state = ParseState::Opt((opt, 1));
                     };
                 } else if pos_allows_hyphen(current_cmd, pos_index) {
+                    valid_arg_found = true;
                     (next_state, pos_index) =
                         parse_positional(current_cmd, pos_index, is_escaped, current_state);
                 }
@@ -97,18 +112,22 @@ pub fn complete(
         } else if let Some(short) = arg.to_short() {
             let (flags, takes_value_opt, mut short) = parse_shortflags(current_cmd, short);
             if let Some(opt) = takes_value_opt {
+                valid_arg_found = true;
                 if short.next_value_os().is_none() {
                     next_state = ParseState::Opt((opt, 1));
                 }
             } else if arg.to_value().is_ok() && flags.chars().all(|c| has_short(current_cmd, c)) {
                 // Known flags stay flags even if the next positional allows hyphen values
+                valid_arg_found = true;
             } else if pos_allows_hyphen(current_cmd, pos_index) {
+                valid_arg_found = true;
                 (next_state, pos_index) =
                     parse_positional(current_cmd, pos_index, is_escaped, current_state);
             }
         } else {
             match current_state {
                 ParseState::ValueDone | ParseState::Pos(..) => {
+                    valid_arg_found = true;
                     (next_state, pos_index) =
                         parse_positional(current_cmd, pos_index, is_escaped, current_state);
                 }
@@ -141,6 +160,7 @@ fn complete_arg(
     current_dir: Option<&std::path::Path>,
     pos_index: usize,
     state: ParseState<'_>,
+    valid_arg_found: bool,
 ) -> Result<Vec<CompletionCandidate>, std::io::Error> {
     debug!(
         "complete_arg: arg={:?}, cmd={:?}, current_dir={:?}, pos_index={:?}, state={:?}",
@@ -154,7 +174,11 @@ fn complete_arg(
 
     match state {
         ParseState::ValueDone => {
-            if let Ok(value) = arg.to_value() {
+            // Like the real parser: no subcommand behind an argument of a command whose
+            // arguments conflict with subcommands
+            let maybe_subcommand =
+                !(cmd.is_args_conflicts_with_subcommands_set() && valid_arg_found);
+            if let Some(value) = arg.to_value().ok().filter(|_| maybe_subcommand) {
                 completions.extend(complete_subcommand(value, cmd));
             }
 
@@ -191,6 +215,7 @@ fn complete_arg(
                     current_dir,
                     pos_index,
                     ParseState::ValueDone,
+                    valid_arg_found,
                 )?);
             }
         }
